@@ -107,7 +107,7 @@ def ensure_parser():
         raise SystemExit("HARNESS-ERROR scenic.gram missing")
     build = VERIF / ".build"
     build.mkdir(exist_ok=True)
-    stamp = build / "parser.stamp"
+    stamp = build / ("parser.%s.stamp" % hashlib.sha256(str(REPO).encode()).hexdigest()[:8])
     digest = hashlib.sha256(gram.read_bytes()).hexdigest()
     if parser.exists() and stamp.exists():
         try:
@@ -205,6 +205,11 @@ def main(argv=None):
 
     ensure_parser()
     sys.path.insert(0, str(VERIF))
+    import scenic
+
+    if not os.path.realpath(scenic.__file__).startswith(os.path.realpath(str(REPO / "src"))):
+        print(f"HARNESS-ERROR scenic imported from {scenic.__file__}, expected {REPO}/src")
+        return 2
     from . import fastalloc
 
     fastalloc.install()
@@ -274,7 +279,7 @@ def main(argv=None):
         if not args.no_confirm and hasattr(mod, "replay") and confirmed < 2:
             confirmed += 1
             r = subprocess.run(
-                [PY, "-m", "mc.runner", pid, "--replay", str(p)],
+                [str(VERIF / "check"), pid, "--replay", str(p)],
                 cwd=str(VERIF),
                 capture_output=True,
                 text=True,
@@ -305,8 +310,9 @@ def main(argv=None):
         "wall_s": round(ctx.elapsed(), 2),
         "violations": len(fresh),
     }
-    (VERIF / "evidence").mkdir(exist_ok=True)
-    evp = VERIF / "evidence" / f"{pid}.json"
+    evdir = VERIF / "evidence" if str(REPO) == "/repo" else VERIF / ".build" / "evidence-alt"
+    evdir.mkdir(parents=True, exist_ok=True)
+    evp = evdir / f"{pid}.json"
     tmp = evp.with_suffix(".tmp")
     tmp.write_text(json.dumps(ev, indent=1, default=str))
     os.replace(tmp, evp)
